@@ -1180,7 +1180,7 @@ class RefAssignParser(BaseAssignParser):
             arghook = None
 
         if (isinstance(self.obj, Model)
-                or not isinstance(decoder, TupleDecoder)
+                or not isinstance(decoder, InterfaceDecoder)
                 or decoder.size() < 3):
             setter = Instruction.from_method(
                 obj=self.obj,
